@@ -4,7 +4,7 @@ C19 — `dump` shows exactly the code that would have been generated.
 -/
 namespace DX
 
-def OSeg.tokens (s : OSeg) : Toks :=
+def OSeg.tokens (s : OSeg) : GToks :=
   match s.body with
   | .toks ts => ts
   | .dump ts => ts
@@ -22,7 +22,7 @@ theorem build_ignores_dump_enum (en : ItemEnum) (h : HAttrs) (variants : List Va
   unfold buildEnumEntry
   cases e.kind <;> rfl
 
-theorem flatten_zipIdx (l : List Toks) (k : Nat) (lab : Nat → String) :
+theorem flatten_zipIdx (l : List GToks) (k : Nat) (lab : Nat → String) :
     ((l.zipIdx k).map (fun x => OSeg.tokens { label := lab x.2, body := .toks x.1 })).flatten = l.flatten := by
   induction l generalizing k with
   | nil => rfl
